@@ -919,10 +919,12 @@ impl<S: Spec> Clone for Form<S> {
 pub struct ResForm<S: Spec> {
     pub name: &'static str,
     pub f: fn(&mut S::R, &[S::V]),
+    /// which items of a batch this form announces (array forms only take items of one length)
+    pub announces: fn(&S::V) -> bool,
 }
 impl<S: Spec> Clone for ResForm<S> {
     fn clone(&self) -> Self {
-        ResForm { name: self.name, f: self.f }
+        ResForm { name: self.name, f: self.f, announces: self.announces }
     }
 }
 
@@ -1028,7 +1030,11 @@ impl<S: Spec> Entry<S> {
         self
     }
     pub fn rform(mut self, name: &'static str, f: fn(&mut S::R, &[S::V])) -> Self {
-        self.reserve_forms.push(ResForm { name, f });
+        self.reserve_forms.push(ResForm { name, f, announces: |_| true });
+        self
+    }
+    pub fn rform_some(mut self, name: &'static str, f: fn(&mut S::R, &[S::V]), announces: fn(&S::V) -> bool) -> Self {
+        self.reserve_forms.push(ResForm { name, f, announces });
         self
     }
     pub fn cloneable(mut self) -> Self
@@ -1200,8 +1206,11 @@ pub mod forms {
         for<'a> S::R: Push<RI<'a, S>>,
     {
         let mut donor = <S::R as Default>::default();
-        // shift the donor's offsets so that donor and target positions differ
+        // the item is neither the first nor the last one in the donor, so that its offsets there
+        // differ from 0 and from the offsets it gets in the target
+        let _ = S::canon_push(&mut donor, v);
         let i = S::canon_push(&mut donor, v);
+        let _ = S::canon_push(&mut donor, v);
         let item = donor.index(i);
         r.push(item)
     }
@@ -1229,6 +1238,11 @@ pub mod forms {
     }
     pub fn res_iter<R: flatcontainer::ReserveItems<PushIter<Vec<T>>>, T: Clone>(r: &mut R, batch: &[Vec<T>]) {
         r.reserve_items(batch.iter().map(|s| PushIter(s.clone())))
+    }
+    /// `&[T; 2]`: announces the two-element items of the batch only
+    pub fn res_array2<R: for<'a> flatcontainer::ReserveItems<&'a [T; 2]>, T>(r: &mut R, batch: &[Vec<T>]) {
+        let arrays: Vec<&[T; 2]> = batch.iter().filter_map(|v| <&[T; 2]>::try_from(v.as_slice()).ok()).collect();
+        r.reserve_items(arrays.into_iter())
     }
     pub fn res_read_items<S: Spec>(r: &mut S::R, batch: &[S::V])
     where
